@@ -98,7 +98,8 @@ OPTS = [
     (3, b"nsid"), (5, b"\x08\x0d"), (8, bytes.fromhex("00011800c00002")), (8, bytes.fromhex("0002300020010db80000")),
     (9, b"\x00\x00\x0e\x10"), (10, bytes.fromhex("0102030405060708")), (10, bytes.fromhex("0102030405060708a1a2a3a4a5a6a7a8")),
     (11, b"\x00\x64"), (12, b"\x00" * 6), (13, b"\x00\x2a"), (15, b"\x00\x17no key"), (15, b"\x00\x06"),
-    (18, b"\x03rpt\x07example\x00"), (65001, b"\xde\xad"),
+    (18, b"\x03rpt\x07example\x00"), (22, b"en"), (23, b"mailto:abuse@example"), (24, b"Example Org"), (25, b"db.example"),
+    (65001, b"\xde\xad"),
 ]
 
 
